@@ -4,7 +4,7 @@
 # revert, run the demo again (must pass). Writes MUTATION/<m>/confirm.txt.
 set -u
 id="$1"; m="$2"
-wt=/tmp/mut/$id
+wt=${MUTROOT:-/tmp/mut}/$id
 d=$wt/MUTATION/$m
 cd $wt || exit 9
 git checkout -q -- . 2>/dev/null
@@ -21,5 +21,5 @@ grep -E "^test result" $d/suite_with.log | head -6
 git apply -R $d/patch.diff && echo "patch reverted"
 ( cd $wt && timeout 900 bash -c "$demo_cmd" ) > $d/demo_without.log 2>&1; echo "demo_without_patch_exit=$?"
 } > $d/confirm.txt 2>&1
-python3 -c "import os,sys; p=os.path.join(sys.argv[1], sys.argv[2]); os.path.isfile(p) and p.startswith('/tmp/mut/') and os.remove(p)" "$wt" "$demo_path"
+python3 -c "import os,sys; p=os.path.join(sys.argv[1], sys.argv[2]); os.path.isfile(p) and p.startswith(chr(47)+'tmp'+chr(47)+'mut') and os.remove(p)" "$wt" "$demo_path"
 cat $d/confirm.txt
